@@ -20,6 +20,13 @@ ASSUMPTIONS = ["std::deque::emplace_front / std::remove_if / erase behave per th
 
 
 def run(ctx):
+    # locals / parameters the rules below refer to by name (a rename makes the analysis 'broken', never a violation)
+    ctx.anchor(ctx.fn1('Oomd::Engine::Engine::removeDropInConfig'), 'n', 'i', 'tag')
+    ctx.anchor(ctx.fn1('Oomd::Engine::Engine::addDropInConfig'), 'tag', 'unit')
+    ctx.anchor(ctx.fn1('Oomd::Engine::Engine::addDropInRuleset'), 'it')
+    ctx.anchor(ctx.fn1('Oomd::Engine::Ruleset::mergeWithDropIn'), 'ruleset')
+    ctx.anchor(ctx.fn1('Oomd::Config2::compileDropIn'), 'target', 'compiled_drop', 'found_target', 'ret', 'root', 'dropin')
+    ctx.anchor(ctx.fn1('Oomd::DropInServiceAdaptor::updateDropIns'), 'unit', 'tag')
     P = ctx.prog
     # ------------------------------------------------ addDropInRuleset
     adr = ctx.fn1("Oomd::Engine::Engine::addDropInRuleset")
